@@ -21,7 +21,8 @@ RULE = ('correspondence: histories of 6-14 operations on a real Fit (ship set/re
         'plus a malformed stream (zero/absent cycle time, absent/zero shift, resonance sums <= 3, resonances > 1). '
         'Non-trivial = a read that ran the simulation with a loaded ship; distinct by (inputs of the run). '
         'Oracle: conservation, <= 1, positivity, single-type law, fallback, never raises, equality with a freshly '
-        'built fit of the same configuration, on the real code only.')
+        'built fit of the same configuration, on the real code only.'
+        ' Also: read orders (C09 for simulator-backed values): each configuration is built four times and read in different orders through attrs[x] and attrs.get(x), once and repeatedly, including configurations whose simulation fails internally.')
 ASSUMPTIONS = [
     'float rounding is not modelled: the model computes in exact rationals on the exact ratios of the doubles impl '
     'uses; decisions within 1e-9 of a discontinuity (damage ties, 10-significant-digit rounding ties, ceil) are '
